@@ -82,14 +82,16 @@ CLAIMED = {
     ),
     "C11": dict(
         engine="llsym+kani",
-        technique="symbolic execution of optimized LLVM IR (constant-time splits: totality, sign words; z3) and Kani/CBMC harnesses (Lagrange reduction, split_vartime glue) when present",
+        technique="symbolic execution of optimized LLVM IR: constant-time splits (totality, sign words; z3) and ModInt256::split_vartime with the Lagrange routines as contract stubs (path forking; products located by sampled values and cut; staged lemmas for modular add/sub in LIA and normalisation/absolute value in BV; selection rule in BV); Kani/CBMC harnesses for the Lagrange reductions on bounded operands and the split_vartime glue",
         category="model_checking",
         text=("split_mu / split_theta / split_mu_odd are straight-line in the optimized IR for every scalar (no panic "
-              "branch reachable) and their sign words are exact; eigenvalue relations are ground facts. The algebraic "
-              "contract needs a rounded-division lemma that does not close within budget and is not posed (see evidence). "
-              "The variable-time half is contributed by props/C11_kani.py."),
-        design_ref="DESIGN.md 3 C11, 8",
-        note="Partial claim: see evidence.outside_claim for exactly what is not posed.",
+              "branch reachable) and their sign words are exact; eigenvalue relations are ground facts. "
+              "ModInt256::split_vartime (p256 and ed25519 scalars in quick; four types in thorough): every path returns for all scalars and "
+              "all stub results, fallback paths return the truncated generic reduction, and on the main path c1 = u1 and c0 is the low half "
+              "of a candidate k*(u1 + b*2^128) that is within +/-2^128 or least in absolute value, the zero denominator excluded; a native "
+              "corpus replays the inputs of the three repaired defects. Kani part: Lagrange reductions on bounded operands, glue, helpers."),
+        design_ref="DESIGN.md 3 C11, 8; engines/kani/NOTES_C11.md",
+        note="Partial claim: the algebraic contract of the constant-time splits (rounded-division lemma) and full-width Lagrange reduction are not posed; see evidence.outside_claim.",
     ),
     "C18": dict(
         engine="llsym",
